@@ -418,7 +418,7 @@ func doReplay(path string, cfg tierCfg) int {
 			var eb bytes.Buffer
 			cmd.Stderr = &eb
 			cmd.Run()
-			if rr := sim.ParseRace(eb.String()); rr != nil && rr.Signature() == rf.Signature {
+			if rr := sim.ParseRace(eb.String()); sim.SameRace(rf.Signature, rr) {
 				fmt.Printf("VIOLATION property=%s replay=%s\n  data race reproduced (attempt %d): %s / %s\n", id, path, i+1, rr.Frames[0], rr.Frames[1])
 				return 1
 			}
